@@ -152,7 +152,7 @@ func C12(c *Ctx) {
 	c05Rollback(c, "C12.P2.storeMemoryAgreement")
 	r.Rule("C12.P8.innerMapKey", "in MemoryAllocationStore.SaveAllocation/UnmarshalJSON an inner index map is created under the very key whose absence was tested", 5)
 	c12InnerMapKey(c)
-	r.Rule("C12.P9.syncComparesPrefix", "handleRemoteChange skips an announced record as already known only after comparing the prefix held by the session allocator with the announced prefix", 2)
+	r.Rule("C12.P9.syncComparesPrefix", "handleRemoteChange skips an announced record as already known only after comparing the prefix held by the session allocator with the announced prefix, and the apply is reachable for a known subscriber", 2)
 	c12SyncComparesPrefix(c)
 	c12KeyScope(c)
 	c12Serialisation(c)
